@@ -21,7 +21,7 @@ import (
 // For every view kind a parent tree is built with uniquely filled sentinel nodes outside
 // the view's root (for disk also in the host directory above the filespace).  Then one
 // operation slot (16 operations, both arguments of the copies) is applied with path strings
-// built from the segments {s, d, view, n, OUTSIDE_MARK, ".", "..", ""}: every string of 1-3
+// built from the segments {s, d, view, n, viewOUT, ".", "..", ""}: every string of 1-3
 // segments and every 4-segment string that contains ".." (bounded sweep, run indexes below
 // SweepSize), random longer ones beyond.  After every operation: the snapshot of
 // everything outside the view's root is byte-identical; no read returns sentinel bytes or
@@ -42,7 +42,10 @@ var c03Slots = []string{
 	"Copy:src", "Copy:dst", "CopyFile:src", "CopyFile:dst", "CopyDirectory:src", "CopyDirectory:dst",
 }
 
-var c03Segs = []string{"s", "d", "view", "n", "OUTSIDE_MARK", ".", "..", ""}
+// "viewOUT" is the sentinel outside every view root; its name deliberately starts with the
+// name of the view's own root directory ("view"): a containment test by string prefix
+// without a separator boundary lets "../viewOUT" through.
+var c03Segs = []string{"s", "d", "view", "n", "viewOUT", ".", "..", ""}
 
 const c03Sentinel = "SENTINEL-OUTSIDE-"
 
@@ -115,11 +118,11 @@ type c03World struct {
 }
 
 // layout: every directory level (parent root, d, view, view/view, view/view/view) holds
-//   s (file), d/s (file), OUTSIDE_MARK (file, only outside the innermost view), view/ ...
+//   s (file), d/s (file), viewOUT (file, only outside the innermost view), view/ ...
 func c03Populate(fs filesystem.Filespace, depth int) error {
 	prefix := ""
 	for level := 0; level <= depth; level++ {
-		mark := "OUTSIDE_MARK"
+		mark := "viewOUT"
 		tag := c03Sentinel
 		if level == depth {
 			mark = ""
@@ -130,7 +133,7 @@ func c03Populate(fs filesystem.Filespace, depth int) error {
 			files[mark] = tag + "mark@" + prefix
 			files["d/"+mark] = tag + "d/mark@" + prefix
 		}
-		for _, name := range []string{"s", "d/s", "srcfile", "srcdir/f", "OUTSIDE_MARK", "d/OUTSIDE_MARK"} {
+		for _, name := range []string{"s", "d/s", "srcfile", "srcdir/f", "viewOUT", "d/viewOUT"} {
 			c, ok := files[name]
 			if !ok {
 				continue
@@ -222,7 +225,7 @@ func c03Build(kind string) *c03World {
 		must(err)
 		w.cleanup = func() { os.RemoveAll(dir) }
 		must(os.MkdirAll(dir+"/root", 0o777))
-		must(os.WriteFile(dir+"/HOST_OUTSIDE_MARK", []byte(c03Sentinel+"host"), 0o644))
+		must(os.WriteFile(dir+"/HOST_viewOUT", []byte(c03Sentinel+"host"), 0o644))
 		must(os.WriteFile(dir+"/s", []byte(c03Sentinel+"host-s"), 0o644))
 		parent, err = diskfs.NewFilespace(dir + "/root")
 		must(err)
@@ -268,8 +271,8 @@ func c03Build(kind string) *c03World {
 		must(c.WriteFile("view/s", []byte("inside-buffer-s"), filesystem.DefaultUnixFileMode))
 		must(c.WriteFile("view/d/s", []byte("inside-buffer-d-s"), filesystem.DefaultUnixFileMode))
 		must(c.WriteFile("s", []byte(c03Sentinel+"buffer-root-s"), filesystem.DefaultUnixFileMode))
-		must(c.WriteFile("OUTSIDE_MARK", []byte(c03Sentinel+"buffer-mark"), filesystem.DefaultUnixFileMode))
-		must(c.WriteFile("d/OUTSIDE_MARK", []byte(c03Sentinel+"buffer-d-mark"), filesystem.DefaultUnixFileMode))
+		must(c.WriteFile("viewOUT", []byte(c03Sentinel+"buffer-mark"), filesystem.DefaultUnixFileMode))
+		must(c.WriteFile("d/viewOUT", []byte(c03Sentinel+"buffer-d-mark"), filesystem.DefaultUnixFileMode))
 		w.view = sub(c.Buffer(), 1)
 		plain = c.Buffer()
 		w.snapshot = snapshotFS(c.Buffer(), "view")
@@ -360,7 +363,7 @@ func c03Run(inI interface{}, env *Env) *Failure {
 			case "ReadDir":
 				if r.Err == nil {
 					for _, n := range infoNames(r.Infos) {
-						if strings.Contains(n, "OUTSIDE_MARK") {
+						if strings.Contains(n, "viewOUT") {
 							leak(fmt.Sprintf("a listing of a directory outside the view: %v", infoNames(r.Infos)))
 							return
 						}
@@ -386,7 +389,7 @@ func c03Run(inI interface{}, env *Env) *Failure {
 					// a view of a climbing path must not list outside directories
 					if infos, err := r.FS.ReadDir("."); err == nil {
 						for _, n := range infoNames(infos) {
-							if strings.Contains(n, "OUTSIDE_MARK") {
+							if strings.Contains(n, "viewOUT") {
 								leak(fmt.Sprintf("a child view rooted outside the view (lists %v)", infoNames(infos)))
 								return
 							}
@@ -460,7 +463,7 @@ func init() {
 		New:        func() interface{} { return &c03In{} },
 		Run:        c03Run,
 		Shrink:     c03Shrink,
-		Rule: fmt.Sprintf("bounded sweep: %d view kinds x %d operation slots (16 operations, both arguments of the copies) x all %d path strings of 1-3 segments and all 4-segment strings containing '..' over the segments {s,d,view,n,OUTSIDE_MARK,.,..,empty}, with and without leading '/', in chunks of %d per case (run indexes below the sweep size; complete when the run range covers them); random strings of 4-8 segments beyond; each operation is followed by a snapshot comparison of everything outside the view's root (for disk: the host directory above the filespace); non-trivial: every case; distinct = distinct (view, slot, paths)", len(c03ViewKinds), len(c03Slots), len(c03SweepPaths), c03Chunk),
+		Rule: fmt.Sprintf("bounded sweep: %d view kinds x %d operation slots (16 operations, both arguments of the copies) x all %d path strings of 1-3 segments and all 4-segment strings containing '..' over the segments {s,d,view,n,viewOUT,.,..,empty}, with and without leading '/', in chunks of %d per case (run indexes below the sweep size; complete when the run range covers them); random strings of 4-8 segments beyond; each operation is followed by a snapshot comparison of everything outside the view's root (for disk: the host directory above the filespace); non-trivial: every case; distinct = distinct (view, slot, paths)", len(c03ViewKinds), len(c03Slots), len(c03SweepPaths), c03Chunk),
 		Real:        []string{"memfs wrapper views", "diskfs root and child views on a private host directory", "encryptfs child views", "fshelper.ROFilespace and SubFS", "fscache child views (SubFS) and its read-only buffer view", "varutil.ReduceAbsPath / CleanPath"},
 		Stub:        []string{"none for this property besides sync -> simrt (solo mode; cache copies run as one-off simulations)"},
 		Assumptions: []string{"a climbing path may be rejected or resolved (clamped) inside the root; a boolean answer 'true' counts as revealing only when the clamped path does not exist inside and the unclamped path exists outside"},
